@@ -7,23 +7,42 @@ open Bolt.FL Bolt.Store
 
 /-- With no reader open, the next write transaction can reuse every page released so far:
     after `beginW` nothing is pending. -/
-theorem all_reusable_without_readers (s : St) (hr : Reachable s) (hnr : s.readers = [])
+theorem all_reusable_without_readers (s : St) (hr : Reachable s) (hb : s.cur.txid + 2 < maxU64)
+    (hnr : s.readers = [])
     (s' : St) (h : stepAll s .beginW = some s') :
     s'.fl.pendingIds = [] ∧ ∀ p, p ∈ s'.fl.freeIds ↔ (p ∈ s.fl.freeIds ∨ p ∈ s.fl.pendingIds) := by
-  sorry
+  obtain ⟨h1, h2⟩ := beginW_no_readers hr.inv hb hnr h
+  exact ⟨by rw [pendingIds_eq, h1]; rfl, h2⟩
 
 /-- In every reachable state with an open writer that began while no reader was open and
     none was opened since, the pending pages are exactly the pages this writer freed. -/
-theorem pending_is_own_frees (s0 : St) (hr : Reachable s0) (hnr : s0.readers = [])
+theorem pending_is_own_frees (s0 : St) (hr : Reachable s0) (hb : s0.cur.txid + 2 < maxU64)
+    (hnr : s0.readers = [])
     (evs : List Ev) (hevs : ∀ e ∈ evs, (∃ n c, e = .alloc n c) ∨ (∃ i o, e = .free i o))
     (s : St) (h : runEvs s0 (.beginW :: evs) = some s) (w : W) (hw : s.w = some w) :
     ∀ p, p ∈ s.fl.pendingIds ↔ p ∈ w.freed := by
-  sorry
+  obtain ⟨s1, hs1, hrun⟩ := runEvs_cons.mp h
+  have hi1 := inv_step hr.inv hs1
+  have ho1 : OwnOnly s1 := by
+    intro e he
+    rw [(beginW_no_readers hr.inv hb hnr hs1).1] at he
+    cases he
+  have ho := ownOnly_run hevs hi1 ho1 hrun
+  have hi := inv_run hi1 hrun
+  intro p
+  rw [← St.freed_some hw, hi.freed_iff p, mem_pendingIds]
+  constructor
+  · rintro ⟨t, a, hp⟩
+    obtain ⟨e, he, het⟩ := hp.key
+    rw [← het, ho e he] at hp
+    exact ⟨a, hp⟩
+  · rintro ⟨a, hp⟩
+    exact ⟨_, a, hp⟩
 
 /-- While readers are open no page that an open reader's version references is reusable. -/
-theorem reader_pages_withheld (s : St) (hr : Reachable s) :
-    ∀ r ∈ s.readers, ∀ p ∈ r.used, p ∉ s.fl.freeIds := by
-  sorry
+theorem reader_pages_withheld (s : St) (hr : Reachable s) (hb : s.cur.txid + 2 < maxU64) :
+    ∀ r ∈ s.readers, ∀ p ∈ r.used, p ∉ s.fl.freeIds :=
+  fun _ hrd _ hp => reader_page_not_free hr.inv (hr.rinv hb) hrd hp
 
 /-- Pages released by transactions older than every open reader are reusable by the next
     writer: after `beginW` every still-pending entry was freed by a transaction ≥ the oldest
@@ -31,11 +50,26 @@ theorem reader_pages_withheld (s : St) (hr : Reachable s) :
 theorem released_below_oldest_reader (s : St) (hr : Reachable s) (m : Nat) (hne : s.readers ≠ [])
     (hm : ∀ r ∈ s.readers, m ≤ r.txid) (s' : St) (h : stepAll s .beginW = some s') :
     ∀ p ∈ s'.fl.pending, m ≤ p.1 := by
-  sorry
+  have hi := hr.inv
+  rw [(step_beginW h).2]
+  apply releasePending_below_min hi.fl m
+  · intro t ht
+    obtain ⟨r, hrd, rfl⟩ := List.mem_map.mp (hi.regs.mem_iff.mp ht)
+    exact hm r hrd
+  · intro hnil
+    have := hi.regs.length_eq
+    rw [hnil, List.length_map] at this
+    exact hne (List.eq_nil_of_length_eq_zero this.symm)
 
 /-- Reopening makes everything that is not referenced allocatable again. -/
 theorem reopen_reclaims_all (s : St) (hr : Reachable s) (k : Kind) (s' : St) (h : stepAll s (.reopen k) = some s') :
     s'.fl.pendingIds = [] ∧ ∀ p, p ∈ s'.fl.freeIds ↔ (2 ≤ p ∧ p < s.cur.hwm ∧ p ∉ s.cur.used) := by
-  sorry
+  obtain ⟨_, _, fl, hfl, rfl⟩ := step_reopen h
+  obtain ⟨g, h1, h2, h3⟩ := init_freeIds (freshFree_sorted s.cur) (FL.empty k)
+  rw [hfl] at h1
+  cases h1
+  refine ⟨by rw [pendingIds_eq, h3]; rfl, fun p => ?_⟩
+  show p ∈ fl.freeIds ↔ _
+  rw [h2, mem_freshFree]
 
 end Bolt.C10
